@@ -1096,3 +1096,227 @@ def getters_by_interpretation(ctx):
         return None
     ctx.__dict__['_getters_by_interpretation'] = (out, n)
     return out, n
+
+
+# ---- create_dzn_elements decided by interpretation (E7): shared by C03, C04, C07 and C13 -------------------------------------------
+def dzn_elements_by_interpretation(ctx):
+    """adv_shell.core.processing.create_dzn_elements (and everything it calls: the port / interface lookup, the per-port
+    semantics lookup, check_multiclient_cfg) interpreted on hand-built models (dznverif.scenario):
+
+      A  ports `provides a, requires b, requires injected c, provides d, requires e` (and the reverse order), provides ports
+         MTS, requires `b` STS and the remaining MTS: exposed are a, d and b, e - in declaration order, each with the semantics
+         configured for that very port and the interface its type names, c is not exposed; with `e` left unconfigured the
+         build is refused with AdvShellError.
+      B  ports `provides api: IApi, provides other: IPlain, requires dev: IPlain` and a multi-client configuration that is
+         absent / valid / names a requires port / names no port / names a claim or release event that does not exist / a
+         granting value the enum does not have / a claim event replying void or an extern / is used with STS ports.
+
+    The function only compares names, directions and flags and looks declarations up by name, so this universe covers its
+    branches whatever helper functions, generators or tables it is organised into.  Returns None when it cannot be
+    interpreted, else {rule: [problem, ...]} for the rules C03.injected, C03.lookup, C03.total, C13.rejects, C04.validate,
+    C07.kind, C07.spelling (empty lists: holds) plus '#' -> number of scenarios."""
+    if '_dzn_elements_by_interpretation' in ctx.__dict__:
+        return ctx.__dict__['_dzn_elements_by_interpretation']
+    ctx.__dict__['_dzn_elements_by_interpretation'] = None
+    from ..scenario import Interp, EnumV, Obj, Raised, Undecided
+    prog, run = ctx.prog, ctx.run
+    try:
+        fn = prog.func('adv_shell.core.processing', 'create_dzn_elements')
+        A = {n: prog.cls('ast', n) for n in ('Component', 'Interface', 'Enum', 'Fields', 'Event', 'Events', 'Signature', 'Formals', 'Port',
+                                             'Ports', 'ScopeName', 'Types', 'FileContents', 'Extern', 'Data', 'PortDirection',
+                                             'EventDirection', 'Injected')}
+        nids, ntree = prog.cls('scoping', 'NamespaceIds'), prog.cls('scoping', 'NamespaceTree')
+        psel, pwild = prog.cls('adv_shell.port_selection', 'PortSelect'), prog.cls('adv_shell.port_selection', 'PortWildcard')
+        psc, pcfg = prog.cls('adv_shell.port_selection', 'PortsSemanticsCfg'), prog.cls('adv_shell.port_selection', 'PortsCfg')
+        mcc = prog.cls('adv_shell.port_selection', 'MultiClientPortCfg')
+        conf = prog.cls('adv_shell.common', 'Configuration')
+        fo = prog.cls('adv_shell.common', 'FacilitiesOrigin')
+        rs = prog.cls('adv_shell.types', 'RuntimeSemantics')
+        adv = prog.cls('adv_shell.types', 'AdvShellError')
+        mce = prog.cls('adv_shell.types', 'MultiClientCfgError')
+    except Exception:       # pylint: disable=broad-except
+        return None
+    params = [a.arg for a in fn.params()]
+    if params[:3] != ['cfg', 'fct', 'encapsulee']:
+        return None
+    out: Dict[str, List[str]] = {k: [] for k in ('C03.injected', 'C03.lookup', 'C03.total', 'C13.rejects', 'C04.validate', 'C07.kind', 'C07.spelling')}
+    n_scen = [0]
+
+    class World:
+        def __init__(self):
+            self.it = it = Interp(prog)
+            it.MAX_STEPS = 3000000
+
+            def mk(cls, **kw):
+                try:
+                    return it.construct(cls, [], kw)
+                except Raised as exc:
+                    raise Undecided(f'the scenario model cannot be built: {cls.name} raises {exc.name}')
+            self.mk = mk
+            self.ids = lambda *xs: mk(nids, items=list(xs))
+            self.sn = lambda *xs: mk(A['ScopeName'], value=self.ids(*xs))
+            self.root = mk(ntree)
+            self.my = mk(ntree, parent=self.root, scope_name=self.ids('My'))
+            self.other_ns = mk(ntree, parent=self.root, scope_name=self.ids('Other'))
+
+        def event(self, name, reply, direction='IN'):
+            return self.mk(A['Event'], name=name, signature=self.mk(A['Signature'], type_name=self.sn(reply), formals=self.mk(A['Formals'], elements=[])),
+                           direction=EnumV(A['EventDirection'], direction))
+
+        def interface(self, name, events, nested=()):
+            trail = self.mk(ntree, parent=self.my, scope_name=self.ids(name))
+            itf = self.mk(A['Interface'], fqn=self.ids('My', name), parent_ns=self.my, ns_trail=trail, name=self.sn(name),
+                          types=self.mk(A['Types'], elements=list(nested)), events=self.mk(A['Events'], elements=list(events)))
+            return itf, trail
+
+        def port(self, name, type_name, direction, injected=False):
+            return self.mk(A['Port'], name=name, type_name=self.sn(type_name), direction=EnumV(A['PortDirection'], direction),
+                           formals=self.mk(A['Formals'], elements=[]), injected=self.mk(A['Injected'], value=injected))
+
+        def select(self, what):
+            return self.mk(psel, value=(set(what) if isinstance(what, (set, frozenset, list)) else EnumV(pwild, what)))
+
+        def sem(self, sts, mts):
+            return self.mk(psc, sts=self.select(sts), mts=self.select(mts))
+
+        def config(self, fct, provides, requires, multiclient=None):
+            try:
+                pc = self.it.construct(pcfg, [], {'provides': provides, 'requires': requires, 'multiclient': multiclient})
+            except Raised as exc:
+                raise Undecided(f'PortsCfg refuses the scenario configuration ({exc.name})')
+            return self.mk(conf, dezyne_filename='x.dzn', ast_fc=fct, output_basename_suffix='Shell', fqn_encapsulee_name=self.ids('My', 'Comp'),
+                           ports_cfg=pc, facilities_origin=EnumV(fo, 'CREATE'), copyright='(c)')
+
+        def run(self, cfg, fct, comp):
+            n_scen[0] += 1
+            try:
+                return self.it.call_function(fn, [cfg, fct, comp], {}), None
+            except Raised as exc:
+                return None, exc.name
+
+    def is_a(exc_name: Optional[str], base: ClassInfo) -> bool:
+        return exc_name is not None and exc_name in prog.classes and prog.is_subclass(exc_name, base.fq)
+
+    def names_of(seq):
+        return [p.fields['port'].fields['name'] if isinstance(p, Obj) and isinstance(p.fields.get('port'), Obj) else repr(p)[:30] for p in seq]
+
+    try:
+        # ---- A: exposure, order, semantics per port ----------------------------------------------------------------------
+        for order in ((0, 1, 2, 3, 4), (4, 3, 2, 1, 0), (2, 0, 1, 4, 3)):
+            w = World()
+            plain, _t = w.interface('IPlain', [w.event('Poke', 'void')])
+            spec = [('a', 'PROVIDES', False), ('b', 'REQUIRES', False), ('c', 'REQUIRES', True), ('d', 'PROVIDES', False), ('e', 'REQUIRES', False)]
+            ports = [w.port(nm, 'IPlain', d, inj) for nm, d, inj in (spec[i] for i in order)]
+            comp = w.mk(A['Component'], fqn=w.ids('My', 'Comp'), parent_ns=w.my, name=w.sn('Comp'), ports=w.mk(A['Ports'], elements=ports))
+            fct = w.mk(A['FileContents'])
+            fct.fields['interfaces'] = [plain]
+            fct.fields['components'] = [comp]
+            label = 'ports [' + ', '.join(f'{spec[i][1].lower()}{" injected" if spec[i][2] else ""} {spec[i][0]}' for i in order) + ']'
+            cfg = w.config(fct, w.sem('NONE', 'ALL'), w.sem({'b'}, 'REMAINING'))
+            res, exc = w.run(cfg, fct, comp)
+            if exc is not None:
+                out['C03.lookup'].append(f'{label}: the valid configuration (every exposed port is given a semantics) is refused with '
+                                         f'{exc.split(".")[-1]}: the semantics is not looked up under the name of the port')
+                continue
+            if not isinstance(res, Obj) or not isinstance(res.fields.get('provides_ports'), list) or not isinstance(res.fields.get('requires_ports'), list):
+                raise Undecided('create_dzn_elements does not hand back a DznElements with two port lists')
+            want_p = [spec[i][0] for i in order if spec[i][1] == 'PROVIDES']
+            want_r = [spec[i][0] for i in order if spec[i][1] == 'REQUIRES' and not spec[i][2]]
+            got_p, got_r = names_of(res.fields['provides_ports']), names_of(res.fields['requires_ports'])
+            if got_p != want_p or got_r != want_r:
+                out['C03.injected'].append(f'{label}: exposed provides ports {got_p} / requires ports {got_r}, expected {want_p} / {want_r} '
+                                           f'(all provides ports and the requires ports that are not injected, in declaration order)')
+            want_sem = {'a': 'MTS', 'd': 'MTS', 'b': 'STS', 'e': 'MTS'}
+            for p in res.fields['provides_ports'] + res.fields['requires_ports']:
+                if not isinstance(p, Obj):
+                    continue
+                nm = p.fields['port'].fields['name'] if isinstance(p.fields.get('port'), Obj) else '?'
+                s_ = p.fields.get('semantics')
+                if nm in want_sem and not (isinstance(s_, EnumV) and s_.member == want_sem[nm]):
+                    out['C03.lookup'].append(f'{label}: port {nm} gets the semantics {s_!r}, configured is {want_sem[nm]}')
+                if p.fields.get('interface') is not plain:
+                    out['C03.lookup'].append(f'{label}: port {nm} is not paired with the interface its type names')
+                if p.fields.get('multiclient') is not None:
+                    out['C13.rejects'].append(f'{label}: port {nm} gets a multi-client fixture although none is configured')
+            # a port the configuration leaves without semantics
+            cfg2 = w.config(fct, w.sem('NONE', 'ALL'), w.sem({'b'}, 'NONE'))
+            _res, exc = w.run(cfg2, fct, comp)
+            if not is_a(exc, adv):
+                out['C03.total'].append(f'{label}, requires port e left without semantics: ' +
+                                        ('the build goes on' if exc is None else f'fails with {exc.split(".")[-1]}, not AdvShellError'))
+
+        # ---- B: the multi-client configuration ---------------------------------------------------------------------------------
+        def world_b():
+            w = World()
+            enum_trail_parent = None
+            claim, release, poke = w.event('Claim', 'Result'), w.event('Release', 'void'), w.event('Poke', 'void')
+            getdata, done = w.event('GetData', 'Data'), w.event('Done', 'void', 'OUT')
+            api, api_trail = w.interface('IApi', [poke, claim, getdata, release, done])
+            result = w.mk(A['Enum'], fqn=w.ids('My', 'IApi', 'Result'), parent_ns=api_trail, name=w.sn('Result'), fields=w.mk(A['Fields'], elements=['Busy', 'Ok']))
+            api.fields['types'].fields['elements'].append(result)
+            decoy = w.mk(A['Enum'], fqn=w.ids('Other', 'Result'), parent_ns=w.other_ns, name=w.sn('Result'), fields=w.mk(A['Fields'], elements=['Ok', 'Nope']))
+            data = w.mk(A['Extern'], fqn=w.ids('My', 'Data'), parent_ns=w.my, name=w.sn('Data'), value=w.mk(A['Data'], value='int'))
+            plain, _t = w.interface('IPlain', [w.event('Poke', 'void')])
+            ports = [w.port('api', 'IApi', 'PROVIDES'), w.port('other', 'IPlain', 'PROVIDES'), w.port('dev', 'IPlain', 'REQUIRES')]
+            comp = w.mk(A['Component'], fqn=w.ids('My', 'Comp'), parent_ns=w.my, name=w.sn('Comp'), ports=w.mk(A['Ports'], elements=ports))
+            fct = w.mk(A['FileContents'])
+            fct.fields['interfaces'] = [api, plain]
+            fct.fields['enums'] = [decoy, result]
+            fct.fields['externs'] = [data]
+            fct.fields['components'] = [comp]
+            return w, fct, comp, dict(claim=claim, release=release, api=api)
+
+        def mc_cfg(w, port='api', claim='Claim', grant=('Ok',), release='Release'):
+            try:
+                return w.it.construct(mcc, [], {'port_name': port, 'claim_event_name': claim, 'claim_granting_reply_value': w.ids(*grant),
+                                                'release_event_name': release})
+            except Raised as exc:
+                raise Undecided(f'MultiClientPortCfg refuses the scenario ({exc.name})')
+
+        w, fct, comp, ev = world_b()
+        res, exc = w.run(w.config(fct, w.sem('NONE', 'ALL'), w.sem('NONE', 'ALL'), mc_cfg(w)), fct, comp)
+        if exc is not None:
+            out['C04.validate'].append(f'a valid multi-client configuration (port api, Claim / Ok / Release) is refused with {exc.split(".")[-1]}')
+            out['C07.kind'].append(f'a claim event that replies an enum (My.IApi.Result) is refused with {exc.split(".")[-1]}: the reply type is not '
+                                   f'looked up as an enum')
+        else:
+            pp = {p.fields['port'].fields['name']: p for p in res.fields['provides_ports'] if isinstance(p, Obj)}
+            fx = pp['api'].fields.get('multiclient') if 'api' in pp else None
+            if not isinstance(fx, Obj):
+                out['C13.rejects'].append('the configured multi-client port api gets no fixture')
+            else:
+                if fx.fields.get('claim_event') is not ev['claim'] or fx.fields.get('release_event') is not ev['release']:
+                    out['C04.validate'].append('the fixture does not hold the configured claim / release events of the port\'s interface')
+                reply = fx.fields.get('claim_granting_reply')
+                items = reply.fields.get('items') if isinstance(reply, Obj) else None
+                if items != ['My', 'IApi', 'Result', 'Ok']:
+                    out['C07.spelling'].append(f'the granting reply is spelled {items!r}; the claim event replies the enum My.IApi.Result, so it has to be '
+                                               f'My.IApi.Result.Ok (the fully qualified name of the resolved enum plus the configured value)')
+            if 'other' in pp and pp['other'].fields.get('multiclient') is not None:
+                out['C13.rejects'].append('a provides port the configuration does not name gets a multi-client fixture')
+            if any(isinstance(p, Obj) and p.fields.get('multiclient') is not None for p in res.fields['requires_ports']):
+                out['C13.rejects'].append('a requires port gets a multi-client fixture')
+        for label, kw, want, rule in (
+                ('names the requires port dev', dict(port='dev'), adv, 'C13.rejects'),
+                ('names a port that does not exist', dict(port='nope'), adv, 'C13.rejects'),
+                ('names a claim event the interface does not have', dict(claim='Nope'), mce, 'C04.validate'),
+                ('names a release event the interface does not have', dict(release='Nope'), mce, 'C04.validate'),
+                ('names a granting value the replied enum does not have', dict(grant=('Nope',)), mce, 'C04.validate'),
+                ('names a claim event that replies void', dict(claim='Poke'), mce, 'C04.validate'),
+                ('names a claim event that replies an extern type', dict(claim='GetData'), mce, 'C07.kind')):
+            w, fct, comp, ev = world_b()
+            _res, exc = w.run(w.config(fct, w.sem('NONE', 'ALL'), w.sem('NONE', 'ALL'), mc_cfg(w, **kw)), fct, comp)
+            if not is_a(exc, want):
+                out[rule].append(f'a multi-client configuration that {label} ' +
+                                 ('is accepted' if exc is None else f'fails with {exc.split(".")[-1]}') + f' - {want.name} expected')
+        w, fct, comp, ev = world_b()
+        _res, exc = w.run(w.config(fct, w.sem('ALL', 'NONE'), w.sem('NONE', 'ALL'), mc_cfg(w)), fct, comp)
+        if not is_a(exc, mce):
+            out['C04.validate'].append('a multi-client configuration on a port with STS semantics ' +
+                                       ('is accepted' if exc is None else f'fails with {exc.split(".")[-1]}') + ' - MultiClientCfgError expected')
+    except Undecided as exc:
+        run.remark(f'create_dzn_elements could not be interpreted on the scenario models ({exc}); the shape rules decide')
+        return None
+    out['#'] = [str(n_scen[0])]
+    ctx.__dict__['_dzn_elements_by_interpretation'] = out
+    return out
